@@ -873,7 +873,9 @@ def part_directed(ctx):
 
 # sheet names that differ in one character of a class a careless key could drop: parsed one after the other
 TWIN_SHEETS = [('US', 'US$'), ('EUR', '$EUR'), ('ab', 'a$b'), ('ab', 'a b'), ('a b', 'a  b'), ('its', "it's"),
-               ('S1', 'S.1'), ('Data', 'Data_'), ('P&L', 'P&L '), ('x', 'x"'), ('2020', '2020 ')]
+               ('S1', 'S.1'), ('Data', 'Data_'), ('P&L', 'P&L '), ('x', 'x"'), ('2020', '2020 '),
+               # (two spellings of one name: whatever the answer for them is, it does not depend on the order)
+               ('Sheet1', 'SHEET1'), ('data', 'Data'), ('Größe', 'GRÖSSE')]
 TWIN_COORDS = ['A1', '$A$1', 'B$2', 'C3:D4', '$C$3:$D$4', 'XFD1048576']
 
 
@@ -894,7 +896,25 @@ def check_twins(ctx, case):
                     return
 
 
+def check_twin_lattice(ctx, case):
+    """ranges on the two sheets of a twin pair as operands of & and **: commutative, and never an address on one of the
+    two sheets in one order and on the other sheet in the other order"""
+    x, y = case['sheets']
+    P = px()
+    a = P.AddressRange.create(R.quote(x) + '!A1:B2')
+    b = P.AddressRange.create(R.quote(y) + '!B1:C3')
+    for name, op in (('intersection', lambda p, q: p & q), ('union', lambda p, q: p ** q)):
+        ab, ba = attempt(lambda: op(a, b)), attempt(lambda: op(b, a))
+        ctx.count('twin_lattice_pairs')
+        if ab[0] == 'x' or ba[0] == 'x' or str(ab[1]) != str(ba[1]) or getattr(ab[1], 'sheet', None) != getattr(ba[1], 'sheet', None):
+            ctx.violation(f'{name}/commutativity/twin-sheet-names',
+                          f'{a} {name} {b} = {show(ab)}, the other way round {show(ba)}', case)
+            return
+
+
 def part_twins(ctx):
+    for pair in TWIN_SHEETS:
+        check_twin_lattice(ctx, {'kind': 'twin-lattice', 'sheets': list(pair)})
     for pair in TWIN_SHEETS:
         ctx.count('twin_cases')
         check_twins(ctx, {'kind': 'twins', 'sheets': list(pair)})
@@ -1146,7 +1166,8 @@ def part_large(ctx):
 
 
 CHECKS = {'roundtrip': check_roundtrip, 'notation': check_notation, 'enum': check_enum,
-          'offset': check_offset, 'pair': check_pair, 'triple': check_triple, 'twins': check_twins}
+          'offset': check_offset, 'pair': check_pair, 'triple': check_triple, 'twins': check_twins,
+          'twin-lattice': check_twin_lattice}
 
 
 def run(ctx):
